@@ -19,6 +19,9 @@ mod c08;
 mod c06;
 mod c20;
 mod cli;
+mod c05;
+mod c15;
+mod sessrun;
 mod util;
 
 use std::path::PathBuf;
@@ -26,6 +29,9 @@ use std::path::PathBuf;
 fn main() {
     let args: Vec<String> = std::env::args().collect();
     let prop = args.get(1).cloned().unwrap_or_default();
+    if prop == "--sessrun" {
+        std::process::exit(sessrun::child_main(&args[2]));
+    }
     if prop == "--worker" {
         std::process::exit(pool::worker_main(&args[2]));
     }
@@ -53,6 +59,8 @@ fn main() {
         "c08" => c08::run(&tier, seed, &out),
         "c06" => c06::run(&tier, seed, &out),
         "c20" => c20::run(&tier, seed, &out),
+        "c05" => c05::run(&tier, seed, &out),
+        "c15" => c15::run(&tier, seed, &out),
         "probe" => probe(&out),
         // rfverif tokens <file> [keep]  : the encoded token list of a file (for the C01/C03 validators)
         "tokens" => { let src = std::fs::read_to_string(&args[2]).unwrap_or_default(); println!("{}", toks::encode_tokens(&src, args.get(3).map(|s| s == "keep").unwrap_or(false))); 0 }
